@@ -5,6 +5,7 @@ import (
 	"context"
 	"encoding/json"
 	"errors"
+	"fmt"
 	"github.com/failsafe-go/failsafe-go/cachepolicy"
 	"os"
 	"regexp"
@@ -203,9 +204,34 @@ func runTScenario(t *testing.T, raw []byte) (lines []M, problem string) {
 				}
 				return mkString(f.R), buildErrX(f.E)
 			}
+			// env entries with id "in:<Event>" are performed by user code itself: the first listener call <Event> of execution x calls
+			// ExecutionResult.Cancel() / cancels the context before it returns (Cancel from OnFailure, a HandleIf predicate, ...)
+			inline := map[string]tEnv{}
+			for _, e := range sc.Env {
+				if strings.HasPrefix(e.Id, "in:") {
+					inline[fmt.Sprintf("%s/%d", e.Id[3:], e.X)] = e
+				}
+			}
+			var inlineMu sync.Mutex
 			cancels := map[int]context.CancelFunc{}
 			acqCancels := map[int]context.CancelFunc{}
 			results := map[int]failsafe.ExecutionResult[string]{}
+			rec.after = func(name string, x int) {
+				inlineMu.Lock()
+				e, ok := inline[fmt.Sprintf("%s/%d", name, x)]
+				delete(inline, fmt.Sprintf("%s/%d", name, x))
+				inlineMu.Unlock()
+				if !ok {
+					return
+				}
+				rec.tline(M{"ev": e.What, "x": x}, nil)
+				if e.What == "AsyncCancel" {
+					results[x].Cancel()
+				} else {
+					cancels[x]()
+				}
+				rec.tline(M{"ev": "CancelRet", "x": x}, nil)
+			}
 			var wg sync.WaitGroup
 			for _, e := range sc.Env {
 				if d := time.Duration(e.At)*unit - time.Since(rec.t0); d > 0 {
@@ -287,6 +313,9 @@ func runTScenario(t *testing.T, raw []byte) (lines []M, problem string) {
 						}()
 					}
 				case "CtxCancel":
+					if strings.HasPrefix(e.Id, "in:") {
+						continue
+					}
 					// the canceller is its own goroutine (the controller goes on with the script)
 					rec.tline(M{"ev": "CtxCancel", "x": e.X}, nil)
 					wg.Add(1)
@@ -297,6 +326,9 @@ func runTScenario(t *testing.T, raw []byte) (lines []M, problem string) {
 						rec.tline(M{"ev": "CancelRet", "x": x}, nil)
 					}(e.X)
 				case "AsyncCancel":
+					if strings.HasPrefix(e.Id, "in:") {
+						continue // performed from inside a listener (see rec.after), not by the controller
+					}
 					rec.tline(M{"ev": "AsyncCancel", "x": e.X}, nil)
 					er := results[e.X]
 					if e.Gap > 0 {
